@@ -66,6 +66,35 @@ class StepCounter:
         return False
 
 
+def seam(modname, attr=None):
+    """A private name of the code under test that a check has to read.  A renamed / removed seam is a
+    failure of the machinery (exit 2) that names the seam — never an anonymous crash, never a violation."""
+    import importlib
+
+    from .common import MachineryError
+    preload()
+    try:
+        cur = importlib.import_module(modname)
+    except ImportError as err:
+        raise MachineryError("seam %s does not exist: %s" % (modname, err))
+    for part in (attr.split(".") if attr else []):
+        if not hasattr(cur, part):
+            raise MachineryError("seam %s.%s does not exist: the check reads this private name of mwlib; it was renamed or removed "
+                                 "(adapt the check)" % (modname, attr))
+        cur = getattr(cur, part)
+    return cur
+
+
+def harness_error(err):
+    """Was the exception raised by code under /verif (innermost traceback frame)?  Then it is a defect of the
+    machinery, never a violation of the property."""
+    import traceback
+
+    from .common import VERIF
+    tb = traceback.extract_tb(err.__traceback__)
+    return bool(tb) and os.path.abspath(tb[-1].filename).startswith(VERIF + os.sep)
+
+
 def preload():
     """Import mwlib in an order that works: importing mwlib.parser.templ.* first runs into the
     circular import evaluate -> metabook -> expander -> evaluate."""
